@@ -5,10 +5,12 @@
 package sm
 
 import (
+	"context"
 	"errors"
 	"fmt"
 	"net"
 	"strings"
+	"sync"
 	"time"
 
 	"github.com/fiorix/go-diameter/v4/diam"
@@ -188,6 +190,29 @@ func (cli *Client) validate() error {
 	return nil
 }
 
+// clientConnState is what the handshake and the watchdog of one connection
+// wait on. It is kept in the connection's context: the CEA and DWA handlers
+// are registered on the state machine's mux, which all connections made
+// through the same Client share, so they must deliver to the channels of the
+// connection the answer arrived on, not to those of the latest handshake.
+type clientConnState struct {
+	errc chan error
+	dwac chan struct{}
+	once sync.Once
+}
+
+type clientConnKey struct{}
+
+// clientConnStateOf returns the client-side state of c, or nil.
+func clientConnStateOf(c diam.Conn) *clientConnState {
+	ctx := c.Context()
+	if ctx == nil {
+		return nil
+	}
+	st, _ := ctx.Value(clientConnKey{}).(*clientConnState)
+	return st
+}
+
 func (cli *Client) handshake(c diam.Conn) (diam.Conn, error) {
 	var (
 		hostAddresses []datatype.Address
@@ -210,13 +235,21 @@ func (cli *Client) handshake(c diam.Conn) (diam.Conn, error) {
 	cli.Handler.mux.HandleIdx(baseCERIdx, diam.HandlerFunc(cerClientHandler))
 	cli.Handler.mux.HandleFunc("CER", cerClientHandler)
 	// Handle CEA and DWA.
-	errc := make(chan error, 1)
-	cli.Handler.mux.Handle("CEA", handleCEA(cli.Handler, errc))
-
-	var dwac chan struct{}
+	st := &clientConnState{errc: make(chan error, 1)}
 	if cli.EnableWatchdog {
-		dwac = make(chan struct{}, 1)
-		cli.Handler.mux.Handle("DWA", handshakeOK(handleDWA(cli.Handler, dwac)))
+		st.dwac = make(chan struct{}, 1)
+	}
+	ctx := c.Context()
+	if ctx == nil {
+		ctx = context.Background()
+	}
+	c.SetContext(context.WithValue(ctx, clientConnKey{}, st))
+	errc, dwac := st.errc, st.dwac
+	// A nil channel makes the handlers use the state of the connection
+	// the answer arrived on.
+	cli.Handler.mux.Handle("CEA", handleCEA(cli.Handler, nil))
+	if cli.EnableWatchdog {
+		cli.Handler.mux.Handle("DWA", handshakeOK(handleDWA(cli.Handler, nil)))
 	}
 	for i := 0; i < (int(cli.MaxRetransmits) + 1); i++ {
 		_, err := m.WriteTo(c)
